@@ -183,7 +183,7 @@ class Registry:
             if args and _const_str(args[0]) is not None and kind not in ('abstract', 'uses_lemma'):
                 name = _const_str(args[0])
                 args = args[1:]
-            if kind in ('requires', 'ensures', 'on_any_exit'):
+            if kind in ('requires', 'ensures', 'on_any_exit', 'define'):
                 for a in args:
                     c.clauses.append(Clause(kind, name or auto(kind), a))
             elif kind == 'let':
@@ -337,7 +337,9 @@ def eval_clause(it, node, specials):
     """loop invariants: evaluated in the *current* code environment"""
     c = it.fn.contract
     old = (it.fn.pre_heap, it.fn.pre_env)
-    sp = Interp(it.st, c.glob if c else it.glob, it.reg, it.fn, pure=True, env=dict(it.env), old=old,
+    env = dict(it.fn.pre_env or {})
+    env.update(it.env)
+    sp = Interp(it.st, c.glob if c else it.glob, it.reg, it.fn, pure=True, env=env, old=old,
                 specials=dict(specials, __pre_alloc__=it.fn.pre_alloc))
     sp.code_glob = it.glob
     return sp.truth(sp.ev(node))
@@ -534,6 +536,8 @@ def apply_contract(it, c, args, kwargs):
         if cl.kind == 'let':
             from .verify import name_quantified
             env[cl.name] = name_quantified(st, cl.name, sp.ev(cl.node), sp)
+        elif cl.kind == 'define':
+            st.assume(sp.truth(sp.ev(cl.node)))
         elif cl.kind == 'requires':
             goal = sp.truth(sp.ev(cl.node))
             if it.pure:
